@@ -782,10 +782,14 @@ class Interp:
                     return obj.attrs
             if name == "__class__":
                 return obj.cls
+            if obj.attrs.get("__closed__"):
+                raise PyRaise("AttributeError", (name,))
             raise Unsupported(f"attribute `{name}` of {obj!r} is not specified")
         if isinstance(obj, Class):
-            if name == "__name__":
+            if name in ("__name__", "__qualname__"):
                 return obj.name
+            if name == "__module__":
+                return obj.module.name
             m, owner = obj.lookup(name)
             if m is None:
                 raise Unsupported(f"class attribute {obj.name}.{name}")
@@ -813,6 +817,10 @@ class Interp:
             self.ctx.heap_mutations += 1
             return
         if isinstance(obj, Opaque):
+            return
+        if isinstance(obj, Function):
+            # function attributes (e.g. wrapper._logger) carry no semantics here
+            self.dropped.add(f"function attribute {name}")
             return
         raise Unsupported(f"setattr on {type(obj).__name__}")
 
